@@ -86,11 +86,16 @@ CHECKS = {
          "each helper on typed Go values (all widths, invalid UTF-8, nested slices/maps, typed and untyped nils), called twice with "
          "argument snapshots, compared with the model and the textbook definition.",
          "Lean 4 proof (typed-value model) + helper differential", "DESIGN.md §6 C14"),
- "C16": ("Lean model of the six-slot chain type/string/format/number/slice/enum with first-error exit and recursive items on typed Go "
-         "values, the chain order as a decide-obligation on the regenerated literals, first-error-exit and nil theorems, decide-witnesses "
-         "of the open deviations; tie: parameter and header validators (plain and recycling) on typed values against the model and the "
-         "simple-schema specification. The full repaired-model equivalence theorem is not yet proved (correspondence only).",
-         "Lean 4 model + regenerated chain-order fact + typed-value differential", "DESIGN.md §6 C16"),
+ "C16": ("Kernel-checked theorems about the model of the six-slot chain type/string/format/number/slice/enum with first-error exit "
+         "and items recursion (fuel = the schema's own nesting depth, so no bound): (1) the chain composes its slots and the recursion "
+         "through items exactly as the simple-schema specification composes its constraints, at every depth, whenever the leaf checks agree "
+         "at each (level, value) pair reached; (2) on the deviation-free fragment (strings, booleans, signed integers with integral bounds "
+         "within int64, arrays of these nested to any depth, no format, enum members of the value's kind) the validators accept exactly what "
+         "the specification accepts and never panic, using the C13 exactness theorems for the numeric leaves; chain order as a "
+         "decide-obligation on regenerated literals; decide-witnesses of the open deviations, which are exactly what the fragment excludes. "
+         "Tie: parameter and header validators (plain and recycling) on typed values against the model and the specification. "
+         "Partial: unsigned and float carriers and formats are covered by C13 theorems and correspondence, not by the fragment theorem.",
+         "Lean 4 proof (chain composition + fragment equivalence) + regenerated chain-order fact + typed-value differential", "DESIGN.md §6 C16, §14"),
  "C15": ("Kernel-checked invariant over every schedule of every number of threads stepping through compileRegexp/cacheRegexp: every "
          "cached entry belongs to its key, a call returns the expression of the pattern it asked for or reports it invalid exactly when it "
          "is, entries are never lost (lock + load inside it); decide-obligation that the source has the modelled shape (keys, lock, "
